@@ -136,7 +136,7 @@ def oracle(name, o, f, agg="mean"):
             v = oagg(agg, [x * x for x in e])
             return None if v < 0 else math.sqrt(v)
         if name == "Rmsf":
-            if any(a <= 0 or b <= 0 for a, b in zip(o, f)):
+            if any(a == 0 or b / a <= 0 for a, b in zip(o, f)):      # the ratio must be positive (both values negative is fine)
                 return "skip"
             v = oagg(agg, [math.log(b / a) ** 2 for a, b in zip(o, f)])
             return None if v < 0 else math.exp(math.sqrt(v))
@@ -202,6 +202,13 @@ def _explore(out, tier, seed, facts, replay):
         elif kind < 0.5:
             o = [rng.choice([0.5, 1.0, 2.0, 3.0, 7.5]) for _ in range(L)]    # positive data (rmsf)
             f = [rng.choice([0.5, 1.0, 2.0, 3.0, 7.5]) for _ in range(L)]
+        elif kind < 0.58:
+            off = rng.choice([0.3, -0.1, 1000.7, 273.15])               # constant offset (errors with no spread, large mean)
+            o = [rng.choice([0.5, 1.5, 2.5, 4.0, -2.0]) for _ in range(L)]
+            f = [x + off for x in o]
+        elif kind < 0.64:
+            o = [-rng.choice([0.5, 1.0, 2.0, 3.0, 7.5]) for _ in range(L)]   # all negative (ratios positive)
+            f = [-rng.choice([0.5, 1.0, 2.0, 3.0, 7.5]) for _ in range(L)] if rng.random() < 0.6 else list(o)
         else:
             o = [rng.choice(alphabet + [rng.randint(-20, 20) / 4.0]) for _ in range(L)]
             f = [rng.choice(alphabet + [rng.randint(-20, 20) / 4.0]) for _ in range(L)]
@@ -326,7 +333,7 @@ def _explore(out, tier, seed, facts, replay):
             except Exception as e:
                 out.violation("exception:%s" % n, "%s raised %r" % (n, e), {"metric": n, "obs": o, "fcst": f})
                 continue
-            if n == "Rmsf" and any(x <= 0 for x in o):
+            if n == "Rmsf" and any(x == 0 for x in o):
                 continue
             if not (math.isnan(vp) or math.isinf(vp) or close(vp, p, 1e-9)):
                 out.violation("perfect:%s" % n.lower(), "%s of a forecast identical to the observations %r is %r, declared perfect score %r"
